@@ -449,7 +449,7 @@ class Program:
         if getattr(self, "_normalised", False):
             return
         self._normalised = True
-        from .inline import alpha_normalise, expand_condition_locals, inline_new_temps, inlined, loops_from_quantifiers, outline_reference_temps, split_conditional_expressions
+        from .inline import _attr_alias_candidates, expand_attribute_aliases, inline_new_constants, new_constants, alpha_normalise, expand_condition_locals, inline_new_temps, inlined, loops_from_filtered_generators, loops_from_quantifiers, outline_reference_temps, split_conditional_expressions
         anchor_names = frozenset(anchor_names)
         self.inline_anchors = anchor_names
 
@@ -462,8 +462,27 @@ class Program:
         order = sorted(self.functions.values(), key=lambda f: -f.qual.count("."))
         for f in order:
             f.raw_node = getattr(f, "raw_node", f.node)
+        gl, ca = new_constants(self, tab)
+        # locals that track an attribute (x = self.A ... x = self.A = E): deciding that no call in between re-binds A needs
+        # the call graph of the tree as it is; it is built only when such a local exists that the reference tree lacks
+        raw_cg = None
+        alias_funcs = set()
+        for f in order:
+            keep0 = set(tab.get(f.qual, {}).get("keys", {}).values())
+            if any(x not in keep0 for x in _attr_alias_candidates(f.node)):
+                alias_funcs.add(f.qual)
+        if alias_funcs:
+            from .callgraph import CallGraph
+            raw_cg = CallGraph(self)
+            writers = {}
+            for f2 in self.functions.values():
+                for n2 in walk_own(f2.node):
+                    if isinstance(n2, ast.Attribute) and isinstance(n2.ctx, (ast.Store, ast.Del)):
+                        writers.setdefault(n2.attr, set()).add(f2.qual)
+        self.normal_form_constants = {"globals": {k: sorted(v) for k, v in gl.items()}, "class_attrs": {k: sorted(v) for k, v in ca.items()}}
         for f in order:
             nf = inlined(self, f, pred=pred)
+            nf = inline_new_constants(nf, gl, ca)
             nf = split_conditional_expressions(nf)
             nf = loops_from_quantifiers(nf)
             nf, ren = alpha_normalise(nf, tab)
@@ -471,11 +490,27 @@ class Program:
             if f.qual in tab:
                 nf = inline_new_temps(nf, keep)
                 nf = outline_reference_temps(nf, tab[f.qual]["keys"])
+            nf = loops_from_filtered_generators(nf)
+            if raw_cg is not None and f.qual in alias_funcs:
+                def may_write(call, attr, _f=f):
+                    o = getattr(call, "_orig", call)
+                    tg = raw_cg.callees(o)
+                    if not tg:
+                        # unresolved: a call on an opaque object (socket, logger, builtin) cannot reach package code
+                        return False
+                    w = writers.get(attr, set())
+                    if not w:
+                        return False
+                    reach = raw_cg.reachable(list(tg))
+                    return any(q in w and q != "__none__" and (self.functions[q].cls is None or _f.cls is None or self.functions[q].cls in _f.cls.mro or _f.cls in self.functions[q].cls.mro) for q in reach)
+                nf = expand_attribute_aliases(nf, keep, may_write)
             nf = expand_condition_locals(nf, self.stable_attr, keep)
             if nf is f:
                 continue
             self.normal_form_log[f.qual] = {"inlined": list(getattr(nf, "inlined_from", [])), "renamed": dict(ren)}
             self._replace_node(f, nf.node)
+        for k in ("_callgraph", "_locks", "_roles"):
+            self.__dict__.pop(k, None)
         # helpers whose every use was expanded are dead code now
         expanded = {q for v in self.normal_form_log.values() for q in v["inlined"]}
         for q in sorted(expanded):
